@@ -12,6 +12,8 @@ or `_send_concurrent`, at `_req_times`, or at the names of private helpers.
   a batch contributing its per-request share once per member, recalibration once enough samples
   are in, inside the limiter) and `_recalc_concurrency` (average, step bounds, rounding) compute
   together.  Delays are chosen so that every float operation is exact and no rounding tie occurs.
+  Some waits end by the response wait limit instead of an answer (they count as measured response
+  times); every other walk has its settings assigned on the INSTANCE after construction.
 * `outcomeTable`: what a caller gets and when: silent peer -> TaskTimeout exactly
   sent_request_timeout after the write; answer -> result at that moment; connection lost ->
   cancellation at that moment; more callers than the limit -> the excess is written only when a
@@ -114,18 +116,28 @@ class Client:
             self.outcome[key] = (1, self.bench.loop.time())          # error
 
 
-def run_flow(mods, trt, recal, steps):
-    """steps: (request_count, delay) processed one after the other -> limit after each completion"""
+FLOW_TIMEOUT = 16.0
+
+
+def run_flow(mods, trt, recal, steps, on_instance=False):
+    """steps: (request_count, delay) processed one after the other -> limit after each completion;
+    delay None = the peer never answers, the wait ends by the response wait limit (FLOW_TIMEOUT).
+    The three settings are given as subclass attributes, or (on_instance) assigned on the instance
+    after the session factory constructed it, the subclass carrying decoy values."""
     saved = mods['session'].time
     bench = lp.VBench()
     try:
-        c = Client(mods, bench, dict(target_response_time=trt, recalibrate_count=recal,
-                                     sent_request_timeout=1000.0))
+        given = dict(target_response_time=trt, recalibrate_count=recal, sent_request_timeout=FLOW_TIMEOUT)
+        decoy = dict(target_response_time=97.0, recalibrate_count=977, sent_request_timeout=977.0)
+        c = Client(mods, bench, decoy if on_instance else given)
+        if on_instance:
+            for name, value in given.items():
+                setattr(c.s, name, value)
         out = []
         for k, (count, delay) in enumerate(steps):
             c.delay_of[k] = delay
             t = bench.loop.create_task(c.call(k, count))
-            bench.advance(delay + 1.0)
+            bench.advance((FLOW_TIMEOUT if delay is None else delay) + 1.0)
             if not t.done():
                 raise RuntimeError('flow probe: call did not complete')
             out.append(int(c.lim.max_concurrent))
@@ -154,10 +166,14 @@ def flow_rows(mods):
     plans.append((3.0, 0, [(1, 64.0)] * 4 + [(1, 0.0)] * 3))
     plans.append((0.0, 1, [(1, 1.0)] * 5))
     plans.append((-1.0, 2, [(1, 1.0)] * 6))
+    # waits that end by the response wait limit are measured response times too (None = no answer):
+    # a peer answering one request in four at once
+    plans.append((0.25, 4, ([(1, 0.0)] + [(1, None)] * 3) * 5))
+    plans.append((3.0, 2, [(1, None), (1, 0.0), (2, None), (1, 3.25), (1, None), (1, None), (4, None), (1, 0.0)]))
     rows = []
-    for trt, recal, steps in plans:
-        targets = run_flow(mods, trt, recal, steps)
-        rows.append((trt, recal, steps, targets))
+    for n, (trt, recal, steps) in enumerate(plans):
+        targets = run_flow(mods, trt, recal, steps, on_instance=(n % 2 == 1))
+        rows.append((trt, recal, [(cnt, FLOW_TIMEOUT if d is None else d) for cnt, d in steps], targets))
     return rows
 
 
